@@ -352,6 +352,25 @@ struct Interp
 			ctx.tr.rec("cancel", {i, int64_t(r)}, {});
 			check_ret(o.op.c_str(), i, want, r);
 		}
+		else if (o.op == "move")
+		{
+			// the timer object is moved (armed or not, waited on or not) and the old object destroyed: to the contract it is
+			// the same timer, with the same expiry, the same place among equal expiries and the same pending wait
+			if (!timers[size_t(i)]) return;
+			if (o.d & 1)
+			{
+				std::unique_ptr<asio::high_resolution_timer> n(new asio::high_resolution_timer(std::move(*timers[size_t(i)])));
+				timers[size_t(i)] = std::move(n);
+			}
+			else
+			{
+				std::unique_ptr<asio::high_resolution_timer> n(new asio::high_resolution_timer(ioc(o.a)));
+				*n = std::move(*timers[size_t(i)]);
+				timers[size_t(i)] = std::move(n);
+			}
+			ctx.tr.rec("move", {i}, {});
+			ctx.hit("timer_moved");
+		}
 		else if (o.op == "destroy")
 		{
 			if (!timers[size_t(i)]) return;
@@ -541,7 +560,7 @@ struct ClockEngine : Engine
 		struct K { char const* op; int w02, w03; };
 		static K const kinds[] = {
 			{"arm_at", 6, 6}, {"arm_after", 6, 6}, {"arm_eq", 2, 3}, {"wait", 3, 6}, {"cancel", 2, 5},
-			{"cancel_one", 1, 2}, {"destroy", 1, 3}, {"post", 6, 1}, {"defer", 2, 0}, {"dispatch", 2, 0}, {"stop", 2, 0}};
+			{"cancel_one", 1, 2}, {"destroy", 1, 3}, {"post", 6, 1}, {"defer", 2, 0}, {"dispatch", 2, 0}, {"stop", 2, 0}, {"move", 1, 2}};
 		std::vector<int> bag;
 		for (int k = 0; k < int(sizeof(kinds) / sizeof(kinds[0])); ++k)
 		{
